@@ -8,6 +8,7 @@ pub mod c06;
 pub mod c07;
 pub mod c08;
 pub mod c09;
+pub mod c10;
 
 pub fn dispatch(cfg: &Cfg) -> Option<Outcome> {
     Some(match cfg.prop.as_str() {
@@ -19,6 +20,7 @@ pub fn dispatch(cfg: &Cfg) -> Option<Outcome> {
         "C07" => c07::run(cfg),
         "C08" => c08::run(cfg),
         "C09" => c09::run(cfg),
+        "C10" => c10::run(cfg),
         _ => return None,
     })
 }
